@@ -1,7 +1,217 @@
-import TuModel.Model.ByteTok
-import TuModel.Model.CharTok
+/-
+  C04 — tokenizer vocabulary maps are mutually consistent bijections.
+  Models: the vocabulary functions of Model/ByteTok.lean, Model/CharTok.lean, Model/Bpe.lean.
+-/
+import TuModel.Lemmas.SpecialL
 import TuModel.Model.Bpe
 namespace Tu.C04
 open Tu
-theorem placeholder_uniq_nil : uniq [] = [] := rfl
+
+/-! ### special tokens: `unique` and the id range -/
+
+theorem uniq_nodup (l : List (List Nat)) : (uniq l).Nodup := by
+  induction l with
+  | nil => simp [uniq]
+  | cons x xs ih =>
+    simp only [uniq, List.nodup_cons]
+    exact ⟨by simp, ih.filter _⟩
+
+theorem uniq_mem (l : List (List Nat)) (x : List Nat) : x ∈ uniq l ↔ x ∈ l := by
+  induction l with
+  | nil => simp [uniq]
+  | cons y ys ih =>
+    simp only [uniq, List.mem_cons, List.mem_filter, ih]
+    constructor
+    · rintro (h | ⟨h, _⟩); exact Or.inl h; exact Or.inr h
+    · rintro (h | h)
+      · exact Or.inl h
+      · by_cases hxy : x = y
+        · exact Or.inl hxy
+        · exact Or.inr ⟨h, by simpa using hxy⟩
+
+/-- distinct special tokens get distinct ids, and `token_to_id` inverts `id_to_token` on them -/
+theorem special_tokenToId_idToToken (sp : Special) (hn : sp.tokens.Nodup) (id : Nat) (t : List Nat)
+    (h : sp.idToToken id = some t) : sp.tokenToId t = some id := by
+  unfold Special.idToToken at h
+  split at h
+  · simp at h
+  · rename_i hlt
+    have hi : id - sp.offset < sp.tokens.length := by
+      rcases Nat.lt_or_ge (id - sp.offset) sp.tokens.length with h' | h'
+      · exact h'
+      · rw [List.getElem?_eq_none h'] at h; simp at h
+    rw [List.getElem?_eq_getElem hi] at h
+    injection h with h
+    unfold Special.tokenToId idxOf
+    have := hn.idxOf_getElem (id - sp.offset) hi
+    rw [h] at this
+    simp [this, hi]
+    omega
+
+/-- pad, prefix and suffix ids (and every special id) lie in `[offset, offset + |tokens|)` -/
+theorem special_id_range (sp : Special) (id : Nat) (h : (sp.idToToken id).isSome = true) :
+    sp.offset ≤ id ∧ id < sp.offset + sp.tokens.length := by
+  unfold Special.idToToken at h
+  split at h
+  · simp at h
+  · rename_i hlt
+    refine ⟨by omega, ?_⟩
+    rcases Nat.lt_or_ge (id - sp.offset) sp.tokens.length with h' | h'
+    · omega
+    · rw [List.getElem?_eq_none h'] at h; simp at h
+
+theorem mkSpecial_range {offset : Nat} {tokens : List (List Nat)} {pad : List Nat} {pre suf : List (List Nat)}
+    {sp : Special} (h : mkSpecial offset tokens pad pre suf = some sp) :
+    sp.tokens.Nodup ∧
+    (∀ id ∈ sp.padId :: (sp.prefixIds ++ sp.suffixIds), offset ≤ id ∧ id < offset + sp.tokens.length) := by
+  obtain ⟨ho, ht, hp, hs, hpad⟩ := mkSpecial_ids h
+  refine ⟨by rw [ht]; exact uniq_nodup _, ?_⟩
+  intro id hid
+  rw [← ho]
+  simp only [List.mem_cons, List.mem_append] at hid
+  rcases hid with rfl | hid | hid
+  · exact special_id_range sp _ hpad.2
+  · exact special_id_range sp _ (hp id hid).2
+  · exact special_id_range sp _ (hs id hid).2
+
+/-! ### byte tokenizer -/
+
+theorem byte_getVocab_length (cfg : ByteCfg) : (byteGetVocab cfg).length = byteVocabSize cfg := by
+  simp [byteGetVocab, byteVocabSize]
+
+/-- `id_to_token(id) = get_vocab()[id]`, and `None` from `vocab_size` on -/
+theorem byte_idToToken_eq (cfg : ByteCfg) (ho : cfg.sp.offset = 256) (id : Nat) :
+    byteIdToToken cfg id = (byteGetVocab cfg)[id]? := by
+  unfold byteIdToToken byteGetVocab
+  by_cases h : id < 256
+  · simp [h, List.getElem?_append_left, List.getElem?_map, List.getElem?_range h]
+  · have hge : 256 ≤ id := by omega
+    simp only [h, if_false]
+    rw [List.getElem?_append_right (by simpa using hge)]
+    simp [Special.idToToken, ho, h]
+
+theorem byte_idToToken_none (cfg : ByteCfg) (ho : cfg.sp.offset = 256) (id : Nat) (h : byteVocabSize cfg ≤ id) :
+    byteIdToToken cfg id = none := by
+  rw [byte_idToToken_eq cfg ho, List.getElem?_eq_none]; rw [byte_getVocab_length]; exact h
+
+/-- `token_to_id` inverts `id_to_token` (no special token is a single byte) -/
+theorem byte_tokenToId_idToToken (cfg : ByteCfg) (ho : cfg.sp.offset = 256) (hn : cfg.sp.tokens.Nodup)
+    (hd : ∀ t ∈ cfg.sp.tokens, t.length ≠ 1) (id : Nat) (t : List Nat) (h : byteIdToToken cfg id = some t) :
+    byteTokenToId cfg t = some id := by
+  unfold byteIdToToken at h
+  split at h
+  · injection h with h; subst h; rfl
+  · have hmem : t ∈ cfg.sp.tokens := by
+      unfold Special.idToToken at h
+      split at h
+      · simp at h
+      · exact List.mem_of_getElem? h
+    have hl := hd t hmem
+    unfold byteTokenToId
+    match t, hl with
+    | [], _ => exact special_tokenToId_idToToken cfg.sp hn id [] h
+    | [b], hl => simp at hl
+    | a :: b :: r, _ => exact special_tokenToId_idToToken cfg.sp hn id _ h
+
+/-- decoding a single regular id yields exactly that token's bytes -/
+theorem byte_detok_single (cfg : ByteCfg) (ign : Bool) (id : Nat) (h : id < 256) :
+    byteDetokBytes cfg.sp ign [id] = byteIdToToken cfg id := by
+  simp [byteDetokBytes, byteIdToToken, h]
+
+/-! ### character tokenizer -/
+
+theorem char_getVocab_length (cfg : CharCfg) : (charGetVocab cfg).length = charVocabSize cfg := by
+  simp [charGetVocab, charVocabSize]
+
+theorem char_idToToken_eq (cfg : CharCfg) (ho : cfg.sp.offset = cfg.alphabet.length) (id : Nat) :
+    charIdToToken cfg id = (charGetVocab cfg)[id]? := by
+  unfold charIdToToken charGetVocab Special.idToToken
+  by_cases h : id < cfg.alphabet.length
+  · simp [ho, h, List.getElem?_append_left]
+  · have hge : cfg.alphabet.length ≤ id := by omega
+    rw [List.getElem?_append_right (by simpa using hge)]
+    simp only [ho, h, if_false, List.length_map]
+    have : cfg.alphabet[id]? = none := List.getElem?_eq_none hge
+    cases hx : cfg.sp.tokens[id - cfg.alphabet.length]? <;> simp [this]
+
+theorem char_idToToken_none (cfg : CharCfg) (ho : cfg.sp.offset = cfg.alphabet.length) (id : Nat)
+    (h : charVocabSize cfg ≤ id) : charIdToToken cfg id = none := by
+  rw [char_idToToken_eq cfg ho, List.getElem?_eq_none]; rw [char_getVocab_length]; exact h
+
+/-- the unknown id is a special id: it lies at or above the alphabet -/
+theorem char_unk_range (alphabet : List Nat) (tokens : List (List Nat)) (unk pad : List Nat) (pre suf : List (List Nat))
+    (cfg : CharCfg) (h : mkCharCfg alphabet tokens unk pad pre suf = some cfg) :
+    cfg.alphabet.length ≤ cfg.unkId ∧ cfg.unkId < charVocabSize cfg ∧ cfg.sp.offset = cfg.alphabet.length := by
+  unfold mkCharCfg at h
+  cases hm : mkSpecial alphabet.length (tokens ++ [unk]) pad pre suf with
+  | none => simp [hm] at h
+  | some sp =>
+    simp only [hm] at h
+    cases hu : sp.tokenToId unk with
+    | none => simp [hu] at h
+    | some u =>
+      simp [hu] at h; subst h
+      obtain ⟨ho, _, _⟩ := mkSpecial_ids hm
+      unfold Special.tokenToId idxOf at hu
+      simp only at hu
+      split at hu
+      · rename_i hlt
+        simp at hu; subst hu
+        simp [charVocabSize, ho]; omega
+      · simp at hu
+
+/-! ### BPE tokenizer -/
+
+theorem bpe_getVocab_length (cfg : BpeCfg) : (bpeGetVocab cfg).length = bpeVocabSize cfg := by
+  simp [bpeGetVocab, bpeVocabSize]; omega
+
+/-- every merge id below the table size has an entry (part of `wfTable`) -/
+def idsComplete (t : MTable) : Prop := ∀ k, k < t.length → (tbytes t k).isSome = true
+
+theorem idsComplete_of_wf (t : MTable) (h : wfTable t = true) : idsComplete t := by
+  intro k hk
+  unfold wfTable at h
+  simp only [Bool.and_eq_true, List.all_eq_true, List.mem_range, beq_iff_eq] at h
+  have h1 := h.1.1 k hk
+  unfold tbytes
+  cases hf : t.find? (fun e => e.2 == k) with
+  | some e => simp
+  | none =>
+    rw [List.find?_eq_none] at hf
+    have : t.filter (fun e => e.2 == k) = [] := by
+      rw [List.filter_eq_nil_iff]; exact hf
+    rw [this] at h1; simp at h1
+
+theorem bpe_idToToken_eq (cfg : BpeCfg) (ho : cfg.sp.offset = 256 + cfg.table.length) (hc : idsComplete cfg.table)
+    (id : Nat) : bpeIdToToken cfg id = (bpeGetVocab cfg)[id]? := by
+  unfold bpeIdToToken bpeGetVocab bpeIdBytes
+  by_cases h : id < 256
+  · have h2 : id < 256 + cfg.table.length := by omega
+    simp [h, h2, List.getElem?_append_left]
+  · by_cases h2 : id < 256 + cfg.table.length
+    · have hk : id - 256 < cfg.table.length := by omega
+      simp only [h, h2, if_true, if_false]
+      rw [List.getElem?_append_left (by simp; omega), List.getElem?_append_right (by simp; omega)]
+      have := hc (id - 256) hk
+      cases hb : tbytes cfg.table (id - 256) with
+      | none => simp [hb] at this
+      | some b => simp [List.getElem?_range hk, hb]
+    · simp only [h2, if_false]
+      rw [List.getElem?_append_right (by simp; omega)]
+      simp [Special.idToToken, ho, h2]
+
+theorem bpe_idToToken_none (cfg : BpeCfg) (ho : cfg.sp.offset = 256 + cfg.table.length) (hc : idsComplete cfg.table)
+    (id : Nat) (h : bpeVocabSize cfg ≤ id) : bpeIdToToken cfg id = none := by
+  rw [bpe_idToToken_eq cfg ho hc, List.getElem?_eq_none]; rw [bpe_getVocab_length]; exact h
+
+/-- decoding a single regular id yields exactly that token's bytes -/
+theorem bpe_detok_single (cfg : BpeCfg) (ign : Bool) (id : Nat) (h : id < 256 + cfg.table.length) :
+    bpeDetokBytes cfg ign [id] = bpeIdToToken cfg id := by
+  simp only [bpeDetokBytes, bpeIdToToken, h, if_true]
+  cases bpeIdBytes cfg id <;> simp
+
+/-! non-vacuity -/
+example : wfTable [([97, 98], 0), ([99, 100], 1), ([97, 98, 99], 2), ([97, 98, 99, 100], 3)] = true := by decide
+example : (mkBpeCfg [([97, 98], 0)] none [[60, 112, 62]] [60, 112, 62] [] []).isSome = true := by decide
+
 end Tu.C04
